@@ -1,14 +1,208 @@
 #!/usr/bin/env python3
-"""C12 - VPS, PDC and 8/30 codecs are exact inverses; bad input is rejected untouched."""
+"""C12 - VPS, PDC and 8/30 codecs are exact inverses; bad input is rejected untouched.
+
+Three independent parties see every op line:
+  * the real code (harness/codec_harness.c, ASan/UBSan build of /repo's current tree),
+  * the Lean model (lean/Driver/Codec.lean) - correspondence = line-by-line equality,
+  * the oracle below: a reference written from the standards (EN 300 231 VPS / 8/30-2 layout,
+    EN 300 468 6.2.29 descriptor, EN 300 706 8.2 / 8.3 / 9.8.1), not from zvbi, which computes
+    the exact line the property demands for EVERY op (round trip value, untouched bits, refusal).
+"""
 import os, subprocess, sys
 sys.path.insert(0, os.path.join(os.path.dirname(os.path.abspath(__file__)), "..", "lib"))
 import verif
 
+# ----------------------------------------------------------------------------------------
+# reference (oracle side)
+# ----------------------------------------------------------------------------------------
 def hx(bs): return "".join("%02x" % b for b in bs) or "-"
+def unhx(s): return [] if s == "-" else list(bytes.fromhex(s))
+def bit(x, i): return (x >> i) & 1
+def r_rev8(c):
+    return sum(bit(c, i) << (7 - i) for i in range(8))
+def popc(x): return bin(x).count("1")
+
+def r_ham8(n):
+    """EN 300 706 8.2: P1 D1 P2 D2 P3 D3 P4 D4, lsb first; odd parities"""
+    d1, d2, d3, d4 = bit(n, 0), bit(n, 1), bit(n, 2), bit(n, 3)
+    p1 = 1 ^ d1 ^ d3 ^ d4
+    p2 = 1 ^ d1 ^ d2 ^ d4
+    p3 = 1 ^ d1 ^ d2 ^ d3
+    p4 = 1 ^ p1 ^ d1 ^ p2 ^ d2 ^ p3 ^ d3 ^ d4
+    return p1 | d1 << 1 | p2 << 2 | d2 << 3 | p3 << 4 | d3 << 5 | p4 << 6 | d4 << 7
+HAM8 = [r_ham8(n) for n in range(16)]
+def r_unham8(c):
+    """nearest codeword within distance 1, else None (distance 2 = detected)"""
+    for n in range(16):
+        if popc(HAM8[n] ^ c) <= 1:
+            return n
+    return None
+UNHAM8 = [r_unham8(c) for c in range(256)]
+def r_par8(c):
+    c &= 255
+    return c if popc(c) % 2 == 1 else c ^ 128
+def r_unpar8(c):
+    return (c & 127) if popc(c & 255) % 2 == 1 else None
+
+def r_ham24(d):
+    """EN 300 706 8.3: positions 1..24 = P1 P2 D1 P3 D2 D3 D4 P4 D5..D11 P5 D12..D18 P6"""
+    pos = [0] * 25
+    datapos = [p for p in range(1, 24) if p not in (1, 2, 4, 8, 16)]
+    for i, p in enumerate(datapos):
+        pos[p] = bit(d, i)
+    for k in (1, 2, 4, 8, 16):
+        s = 1
+        for p in range(1, 24):
+            if p != k and (p & k):
+                s ^= pos[p]
+        pos[k] = s
+    s = 1
+    for p in range(1, 24):
+        s ^= pos[p]
+    pos[24] = s
+    w = sum(pos[p] << (p - 1) for p in range(1, 25))
+    return [w & 255, (w >> 8) & 255, (w >> 16) & 255]
+def tri_data(w):
+    datapos = [p for p in range(1, 24) if p not in (1, 2, 4, 8, 16)]
+    return sum(bit(w, p - 1) << i for i, p in enumerate(datapos))
+def tri_is_code(w):
+    t = r_ham24(tri_data(w))
+    return (t[0] | t[1] << 8 | t[2] << 16) == w
+def r_unham24(t):
+    w = t[0] | t[1] << 8 | t[2] << 16
+    if tri_is_code(w):
+        return tri_data(w)
+    for k in range(24):
+        if tri_is_code(w ^ (1 << k)):
+            return tri_data(w ^ (1 << k))
+    return None
+
+U32 = 1 << 32
+def vps_raw_cni(b): return ((b[10] & 3) << 10) | ((b[11] & 0xC0) << 2) | (b[8] & 0xC0) | (b[11] & 0x3F)
+def vps_seen(cni, b2): return (0xDC1 if b2 & 0x10 else 0xDC2) if cni == 0xDC3 else cni
+def vps_pil(b): return ((b[8] & 0x3F) << 14) | (b[9] << 6) | (b[10] >> 2)
+def pid_line(ch, ct, cni, pil, luf, mi, prf, pcs, pty):
+    return "pid %d %d %d %d %d %d %d %d %d" % (ch, ct, cni, pil, luf, mi, prf, pcs, pty)
+def vps_put_cni(b, cni):
+    b = list(b)
+    b[8] = (b[8] & 0x3F) | (cni & 0xC0)
+    b[10] = (b[10] & 0xFC) | ((cni >> 10) & 3)
+    b[11] = (cni & 0x3F) | ((cni >> 2) & 0xC0)
+    return b
+def vps_put_pdc(b, cni, pil, pcs, pty):
+    b = vps_put_cni(b, cni)
+    b[2] = (b[2] & 0x3F) | (pcs << 6)
+    b[8] = (b[8] & 0xC0) | ((pil >> 14) & 0x3F)
+    b[9] = (pil >> 6) & 0xFF
+    b[10] = (b[10] & 0x03) | ((pil & 0x3F) << 2)
+    b[12] = pty
+    return b
+def vps_dec_pdc_line(b):
+    return pid_line(4, 1, vps_seen(vps_raw_cni(b), b[2]), vps_pil(b), 0, 1, 0, b[2] >> 6, b[12])
+def dvb_put(b, pil):
+    return [0x69, 3, 0xF0 | (pil >> 16), (pil >> 8) & 255, pil & 255] + list(b[5:])
+def dvb_dec_line(b):
+    if b[0] != 0x69 or b[1] != 3: return None
+    return pid_line(5, 0, 0, ((b[2] & 15) << 16) | (b[3] << 8) | b[4], 0, 1, 0, 0, 0)
+
+def r_8301_time(p):
+    nib = [p[12] & 15, p[13] >> 4, p[13] & 15, p[14] >> 4, p[14] & 15,
+           p[15] >> 4, p[15] & 15, p[16] >> 4, p[16] & 15, p[17] >> 4, p[17] & 15]
+    if any(n < 1 or n > 10 for n in nib): return None
+    d = [n - 1 for n in nib]
+    mjd = d[0] * 10000 + d[1] * 1000 + d[2] * 100 + d[3] * 10 + d[4]
+    hh, mm, ss = d[5] * 10 + d[6], d[7] * 10 + d[8], d[9] * 10 + d[10]
+    if ss > 60 or mm >= 60 or hh >= 24: return None
+    off = ((p[11] >> 1) & 31) * 1800
+    if p[11] & 0x40: off = -off
+    return ((mjd - 40587) * 86400 + hh * 3600 + mm * 60 + ss, off)
+def r_8302_bytes(p, idx):
+    """data bytes b7.. from Hamming pairs, msb-first nibbles -> bit reversed"""
+    out = {}
+    for i in idx:
+        a, c = UNHAM8[p[2 * i - 4]], UNHAM8[p[2 * i - 3]]
+        if a is None or c is None: return None
+        out[i] = r_rev8(a | c << 4)
+    return out
+def cni_8302(b): return ((b[7] & 15) << 12) | ((b[10] & 3) << 10) | ((b[11] & 0xC0) << 2) | (b[8] & 0xC0) | (b[11] & 0x3F)
+def r_8302_cni(p):
+    b = r_8302_bytes(p, (7, 8, 10, 11))
+    return None if b is None else cni_8302(b)
+def r_8302_pdc(p):
+    e = UNHAM8[p[9]]
+    b = r_8302_bytes(p, (7, 8, 9, 10, 11, 12))
+    if e is None or b is None: return None
+    b6 = r_rev8(e) >> 4
+    return pid_line((b6 >> 2) & 3, 3, cni_8302(b), ((b[8] & 0x3F) << 14) | (b[9] << 6) | (b[10] >> 2),
+                    (b6 >> 1) & 1, (b[7] >> 5) & 1, b6 & 1, (b[7] >> 6) & 3, b[12])
+
+def num(s):
+    return int(s, 16) if s.startswith("0x") else int(s)
+def optn(v): return "ok neg" if v is None else "ok %d" % v
+
+def expected(op):
+    """the exact output line the property demands for one op, or None if this op is not judged"""
+    w = op.split()
+    try:
+        k = w[0]
+        if k == "rev8": return "ok %d" % r_rev8(num(w[1]) & 255)
+        if k == "rev16":
+            v = num(w[1]) & 0xFFFF
+            return "ok %d" % (r_rev8(v & 255) << 8 | r_rev8(v >> 8))
+        if k == "ham8": return "ok %d" % HAM8[num(w[1]) & 15]
+        if k == "unham8": return optn(UNHAM8[num(w[1]) & 255])
+        if k == "par8": return "ok %d" % r_par8(num(w[1]))
+        if k == "unpar8": return optn(r_unpar8(num(w[1])))
+        if k == "unham16p":
+            b = unhx(w[1]); a, c = UNHAM8[b[0]], UNHAM8[b[1]]
+            return optn(None if a is None or c is None else a | c << 4)
+        if k == "ham24p": return "ok " + hx(r_ham24(num(w[1]) & 0x3FFFF))
+        if k == "unham24p": return optn(r_unham24(unhx(w[1])))
+        if k == "unpar":
+            b = unhx(w[1])
+            return "ok %s %s" % ("good" if all(popc(x) % 2 for x in b) else "neg", hx([x & 127 for x in b]))
+        if k == "vps_dec_cni":
+            b = unhx(w[1]); return "ok %d" % vps_seen(vps_raw_cni(b), b[2])
+        if k == "vps_dec_pdc": return "ok " + vps_dec_pdc_line(unhx(w[1]))
+        if k == "dvb_dec":
+            l = dvb_dec_line(unhx(w[1])); return "ok false" if l is None else "ok " + l
+        if k in ("vps_enc_cni", "vps_rt_cni"):
+            b, cni = unhx(w[1]), num(w[2]) % U32
+            if cni > 0xFFF: return "ok false"
+            e = vps_put_cni(b, cni)
+            return "ok " + hx(e) + (" %d" % vps_seen(cni, b[2]) if k == "vps_rt_cni" else "")
+        if k in ("vps_enc_pdc", "vps_rt_pdc"):
+            b = unhx(w[1]); cni, pil, pcs, pty = [num(x) % U32 for x in w[2:6]]
+            if cni > 0xFFF or pil > 0xFFFFF or pcs > 3 or pty > 0xFF: return "ok false"
+            e = vps_put_pdc(b, cni, pil, pcs, pty)
+            return "ok " + hx(e) + (" " + pid_line(4, 1, vps_seen(cni, b[2]), pil, 0, 1, 0, pcs, pty) if k == "vps_rt_pdc" else "")
+        if k in ("dvb_enc", "dvb_rt"):
+            b, pil = unhx(w[1]), num(w[2]) % U32
+            if pil > 0xFFFFF: return "ok false"
+            return "ok " + hx(dvb_put(b, pil)) + (" " + pid_line(5, 0, 0, pil, 0, 1, 0, 0, 0) if k == "dvb_rt" else "")
+        if k == "vps_reenc":
+            b, t = unhx(w[1]), unhx(w[2])
+            return "ok " + hx(vps_put_pdc(t, vps_seen(vps_raw_cni(b), b[2]), vps_pil(b), b[2] >> 6, b[12]))
+        if k == "p8301_cni":
+            p = unhx(w[1]); return "ok %d" % (r_rev8(p[9]) << 8 | r_rev8(p[10]))
+        if k == "p8301_time":
+            r = r_8301_time(unhx(w[1])); return "ok false" if r is None else "ok %d %d" % r
+        if k == "p8302_cni":
+            r = r_8302_cni(unhx(w[1])); return "ok false" if r is None else "ok %d" % r
+        if k == "p8302_pdc":
+            r = r_8302_pdc(unhx(w[1])); return "ok false" if r is None else "ok " + r
+    except (IndexError, ValueError):
+        return None
+    return None
+
+# ----------------------------------------------------------------------------------------
+# generators
+# ----------------------------------------------------------------------------------------
 def rbuf(rng, n):
     k = rng.random()
     if k < 0.1: return [0] * n
     if k < 0.2: return [255] * n
+    if k < 0.3: return [rng.choice([0x00, 0xFF, 0x55, 0xAA, 0x10, 0xEF])] * n
     return [rng.randrange(256) for _ in range(n)]
 
 def edge(rng, bits, over=True):
@@ -17,10 +211,16 @@ def edge(rng, bits, over=True):
     top = (1 << bits) - 1
     if k < 0.08: return 0
     if k < 0.16: return top
-    if over and k < 0.24: return top + 1 + rng.randrange(4)
-    if over and k < 0.28: return rng.randrange(1 << 32)
+    if over and k < 0.22: return top + 1 + rng.randrange(4)
+    if over and k < 0.25: return rng.choice([1 << 31, (1 << 32) - 1, (top + 1) << rng.randrange(1, 8), rng.randrange(1 << 32)])
     if k < 0.4: return 1 << rng.randrange(bits)
+    if k < 0.5: return top ^ (1 << rng.randrange(bits))
     return rng.randrange(top + 1)
+
+CHUNK = {"quick": 40, "thorough": 500}
+def chunks(lst, tier):
+    n = CHUNK[tier]
+    return [lst[i:i + n] for i in range(0, len(lst), n)]
 
 class C12(verif.Spec):
     prop = "C12"
@@ -29,156 +229,301 @@ class C12(verif.Spec):
     harness = "codec_harness"
     harness_link_lib = True
     partial_note = ""
+    open_statements = ["Zvbi.Hamm.ham24p_unham24p_statement (24/18 encode->decode round trip for all 2^18 values: not used by the C12 codecs, tested against an EN 300 706 8.3 reference only)"]
     assumptions = ["time_t is 64 bit (TIME_MIN/TIME_MAX never reached for 5-digit MJD)",
                    "callers pass buffers of the documented size (13/5/42 bytes)"]
-    trusted_base = ["translate/gen_tables.py (Hamming tables; cross-checked op by op against the compiled tables)",
+    trusted_base = ["translate/gen_tables.py (Hamming tables; cross-checked op by op against the compiled tables and against the EN 300 706 reference in checks/C12.py)",
                     "harness/codec_harness.c + lean/Driver/Codec.lean (correspondence of the ten public functions)",
-                    "Codec/Spec.lean enc8301/enc8302: my transcription of EN 300 706 9.8 / EN 300 231"]
+                    "Codec/Spec.lean enc8301/enc8302: transcription of EN 300 706 9.8 / EN 300 231 (cross-checked against the independent Python reference decoder in checks/C12.py)"]
+    rule = ("cases from corpus + seeded generators: exhaustive table layer and all 4096 VPS CNIs, boundary-biased "
+            "field values (all single bits / all-ones-but-one / out of range), sender-spec 8/30 packets with every "
+            "nibble fault and every single-bit error, plus random buffers; non-trivial = the code produced a non-rej line")
 
     def model(self, lines):
         p = subprocess.run([verif.model_exe(), "codec"], input=("\n".join(lines) + "\n").encode(),
-                           stdout=subprocess.PIPE, timeout=600)
+                           stdout=subprocess.PIPE, timeout=1200)
         return p.stdout.decode().split("\n")
 
-    def gen_cases(self, rng, tier):
-        N = 1500 if tier == "quick" else 40000
-        cases = []
-        # 1. table layer, exhaustive over bytes
+    # -- generators -------------------------------------------------------------------
+    def gen_tables(self, rng, tier):
         c = []
         for v in range(256):
             c += ["rev8 %d" % v, "unham8 %d" % v, "par8 %d" % v, "unpar8 %d" % v]
         for v in range(16):
             c.append("ham8 %d" % v)
-        cases.append(c)
-        # 2. 24/18: encode, all 24 single flips, sampled doubles, random triplets
-        c = []
-        for _ in range(N // 30):
-            v = edge(rng, 18, over=False)
-            c.append("ham24p %d" % v)
-        for _ in range(N // 3):
-            c.append("unham24p " + hx(rbuf(rng, 3)))
-            c.append("unham16p " + hx(rbuf(rng, 2)))
-        cases.append(c)
-        # 3. VPS / DVB encode + decode round trips (rt ops do enc then dec in one op)
-        for _ in range(N // 10):
-            c = []
+        for _ in range(64):
+            c.append("rev16 %d" % rng.randrange(65536))
+        c2 = []
+        for a in range(256):        # all pairs with one fixed partner + random pairs
+            c2.append("unham16p " + hx([a, HAM8[a & 15]]))
+            c2.append("unham16p " + hx([HAM8[a >> 4], a]))
+            c2.append("unham16p " + hx([a, rng.randrange(256)]))
+        for _ in range(40):
+            c2.append("unpar " + hx(rbuf(rng, rng.randrange(0, 12))))
+            c2.append("unpar " + hx([r_par8(rng.randrange(128)) for _ in range(rng.randrange(1, 12))]))
+        return [c, c2]
+
+    def gen_ham24(self, rng, tier):
+        n = 300 if tier == "quick" else 3000
+        ops = []
+        vals = [0, 0x3FFFF, 0x15555, 0x2AAAA] + [1 << k for k in range(18)] + [edge(rng, 18, False) for _ in range(n)]
+        for v in vals:
+            ops.append("ham24p %d" % v)
+            t = r_ham24(v)
+            ops.append("unham24p " + hx(t))
+            for k in range(24):
+                u = list(t); u[k // 8] ^= 1 << (k % 8)
+                ops.append("unham24p " + hx(u))
+            for _ in range(3):
+                k, j = rng.sample(range(24), 2)
+                u = list(t); u[k // 8] ^= 1 << (k % 8); u[j // 8] ^= 1 << (j % 8)
+                ops.append("unham24p " + hx(u))
+        for _ in range(n * 5):
+            ops.append("unham24p " + hx(rbuf(rng, 3)))
+        return chunks(ops, tier)
+
+    def pil_values(self, rng, tier):
+        v = [0, 0xFFFFF, 0x100000, 0x100001, 0xFFFFFFFF, 0x80000000, 0x7FFFF, 0x3FFF, 0x4000, 0x3F, 0x40,
+             # service codes / unreal dates: day 0 month 15 (timer control), 31.15 etc.
+             (0 << 15) | (15 << 11) | (31 << 6) | 63, (0 << 15) | (15 << 11) | (30 << 6) | 63,
+             (0 << 15) | (15 << 11) | (29 << 6) | 63, (0 << 15) | (15 << 11) | (28 << 6) | 63,
+             (31 << 15) | (15 << 11) | (31 << 6) | 63, (31 << 15) | (2 << 11) | (25 << 6) | 61]
+        v += [1 << k for k in range(22)] + [0xFFFFF ^ (1 << k) for k in range(20)] + [(1 << k) - 1 for k in range(1, 22)]
+        return v
+
+    def gen_vps(self, rng, tier):
+        ops = []
+        # all 4096 CNIs (+ a few out of range), random surroundings
+        for cni in list(range(4096)) + [4096, 4097, 0x1FFF, 0xFFFF, 0x1000 | 0xDC3, 0xFFFFFFFF, 0x80000DC3]:
+            ops.append("vps_rt_cni %s %d" % (hx(rbuf(rng, 13)), cni))
+        # the shared code 0xDC3, both values of the distinction bit, via every path
+        for _ in range(24):
             b = rbuf(rng, 13)
-            cni = 0xDC3 if rng.random() < 0.1 else edge(rng, 12)
+            for bit4 in (0, 0x10):
+                b[2] = (b[2] & 0xEF) | bit4
+                ops.append("vps_rt_cni %s %d" % (hx(b), 0xDC3))
+                ops.append("vps_rt_pdc %s %d %d %d %d" % (hx(b), 0xDC3, rng.randrange(1 << 20), rng.randrange(4), rng.randrange(256)))
+                e = vps_put_pdc(b, 0xDC3, rng.randrange(1 << 20), rng.randrange(4), rng.randrange(256))
+                ops += ["vps_dec_cni " + hx(e), "vps_dec_pdc " + hx(e), "vps_reenc %s %s" % (hx(e), hx(rbuf(rng, 13))),
+                        "vps_reenc %s %s" % (hx(e), hx(e))]
+        # PIL boundary set through both encoders
+        for pil in self.pil_values(rng, tier):
+            b = rbuf(rng, 13)
+            ops.append("vps_rt_pdc %s %d %d %d %d" % (hx(b), edge(rng, 12, False), pil, rng.randrange(4), rng.randrange(256)))
+            ops.append("dvb_rt %s %d" % (hx(rbuf(rng, 5)), pil))
+        n = 6000 if tier == "quick" else 60000
+        for _ in range(n):
+            b = rbuf(rng, 13)
+            cni = 0xDC3 if rng.random() < 0.05 else edge(rng, 12)
             pil, pcs, pty = edge(rng, 20), edge(rng, 2), edge(rng, 8)
-            c.append("vps_enc_cni %s %d" % (hx(b), cni))
-            c.append("vps_enc_pdc %s %d %d %d %d" % (hx(b), cni, pil, pcs, pty))
-            c.append("vps_dec_cni " + hx(b))
-            c.append("vps_dec_pdc " + hx(b))
+            if rng.random() < 0.6:      # mostly exactly one field out of range, or none
+                keep = rng.randrange(5)
+                if keep != 0: cni &= 0xFFF
+                if keep != 1: pil &= 0xFFFFF
+                if keep != 2: pcs &= 3
+                if keep != 3: pty &= 0xFF
+            k = rng.random()
+            if k < 0.25: ops.append("vps_enc_cni %s %d" % (hx(b), cni))
+            elif k < 0.5: ops.append("vps_enc_pdc %s %d %d %d %d" % (hx(b), cni, pil, pcs, pty))
+            else: ops.append("vps_rt_pdc %s %d %d %d %d" % (hx(b), cni, pil, pcs, pty))
+            k = rng.random()
+            if k < 0.3:
+                ops += ["vps_dec_cni " + hx(b), "vps_dec_pdc " + hx(b)]
+            elif k < 0.6:
+                ops.append("vps_reenc %s %s" % (hx(b), hx(rbuf(rng, 13))))
+            elif k < 0.7:
+                ops.append("vps_reenc %s %s" % (hx(b), hx(b)))
             d = rbuf(rng, 5)
-            c.append("dvb_enc %s %d" % (hx(d), pil))
-            if rng.random() < 0.5: d[0] = 0x69
-            if rng.random() < 0.5: d[1] = 3
-            c.append("dvb_dec " + hx(d))
-            cases.append(c)
-        # 4. 8/30: packets from the Lean spec encoders, then faults
+            k = rng.random()
+            if k < 0.4: ops.append("dvb_rt %s %d" % (hx(d), pil if rng.random() < 0.5 else edge(rng, 20)))
+            elif k < 0.6: ops.append("dvb_enc %s %d" % (hx(d), edge(rng, 20)))
+            else:
+                if rng.random() < 0.8: d[0] = 0x69
+                if rng.random() < 0.8: d[1] = 3
+                if rng.random() < 0.1: d[0], d[1] = rng.choice([(0x68, 3), (0x69, 2), (0x69, 4), (3, 0x69), (0x6B, 3), (0x69, 0x83)])
+                ops.append("dvb_dec " + hx(d))
+        if tier == "thorough":
+            # every 20-bit PIL through both encoders (4 strides so that cases stay small)
+            for pil in range(1 << 20):
+                if pil % 2: ops.append("dvb_rt 0000000000 %d" % pil)
+                else: ops.append("vps_rt_pdc %s %d %d %d %d" % (hx([pil & 255] * 13), (pil * 7) & 0xFFF, pil, pil & 3, (pil >> 3) & 255))
+            for pil in range(1 << 20):
+                if pil % 2 == 0: ops.append("dvb_rt ffffffffff %d" % pil)
+                else: ops.append("vps_rt_pdc %s %d %d %d %d" % (hx([(pil >> 4) & 255] * 13), (pil * 5) & 0xFFF, pil, (pil >> 1) & 3, (pil >> 5) & 255))
+        return chunks(ops, tier)
+
+    def gen_8301(self, rng, tier):
+        n = 600 if tier == "quick" else 4000
         pre, meta = [], []
-        for _ in range(N // 10):
+        mjds = [0, 1, 9, 10, 99, 100, 999, 1000, 9999, 10000, 19999, 40586, 40587, 40588, 58754, 60000, 88888, 90909, 99999]
+        def add(fill, cni, mjd, hh, mm, ss, lto, neg):
+            pre.append("spec_enc8301 %s %d %d %d %d %d %d %d" % (hx(fill), cni, mjd, hh, mm, ss, lto, neg))
+            meta.append((cni, mjd, hh, mm, ss, lto, neg))
+        for mjd in mjds:
+            add(rbuf(rng, 42), edge(rng, 16, False), mjd, rng.randrange(24), rng.randrange(60), rng.randrange(61), rng.randrange(32), rng.randrange(2))
+        for lto in range(32):
+            for neg in (0, 1):
+                add(rbuf(rng, 42), rng.randrange(65536), rng.randrange(100000), rng.randrange(24), rng.randrange(60), rng.randrange(60), lto, neg)
+        for hh, mm, ss in [(0, 0, 0), (23, 59, 59), (23, 59, 60), (0, 0, 60), (24, 0, 0), (23, 60, 0), (23, 59, 61), (9, 9, 9),
+                           (10, 10, 10), (19, 19, 19), (20, 0, 0), (29, 0, 0), (0, 69, 0), (0, 0, 69), (25, 0, 0), (0, 0, 70), (0, 99, 0), (99, 0, 0)]:
+            add(rbuf(rng, 42), rng.randrange(65536), rng.randrange(100000), hh, mm, ss, rng.randrange(32), rng.randrange(2))
+        for _ in range(n):
+            add(rbuf(rng, 42), edge(rng, 16, False), rng.choice([rng.randrange(100000), rng.choice(mjds)]),
+                rng.choice([0, 23, rng.randrange(24)]), rng.choice([0, 59, rng.randrange(60)]),
+                rng.choice([0, 59, 60, rng.randrange(61)]), rng.choice([0, 31, rng.randrange(32)]), rng.randrange(2))
+        if tier == "thorough":
+            for mjd in range(100000):
+                hh, mm, ss = [(0, 0, 0), (23, 59, 59), (23, 59, 60), (12, 30, 30)][mjd % 4]
+                add([mjd & 255] * 42, mjd & 0xFFFF, mjd, hh, mm, ss, mjd % 32, (mjd >> 5) & 1)
+        outs = self.model(pre)
+        ops = []
+        nfault = 0
+        for f, o in zip(meta, outs):
+            if not o.startswith("ok "):
+                continue
+            pkt = unhx(o.split()[1])
+            cni, mjd, hh, mm, ss, lto, neg = f
+            ok = hh < 24 and mm < 60 and ss <= 60
+            e1 = "ok %d" % cni
+            e2 = "ok %d %d" % ((mjd - 40587) * 86400 + hh * 3600 + mm * 60 + ss, (-1 if neg else 1) * lto * 1800) if ok else "ok false"
+            for op, e in (("p8301_cni " + hx(pkt), e1), ("p8301_time " + hx(pkt), e2)):
+                ops.append(op); self._expect[op] = e
+            if not ok or nfault > (400 if tier == "quick" else 20000):
+                continue
+            nfault += 1
+            # every nibble of MJD / UTC made invalid in turn: 0 and 11..15 must be refused
+            positions = [(12, 0)] + [(i, s) for i in range(13, 18) for s in (4, 0)]
+            for (i, sh) in (positions if nfault <= 12 else rng.sample(positions, 2)):
+                for v in ((0, 11, 12, 13, 14, 15) if nfault <= 12 else (rng.choice([0, 11, 15]),)):
+                    bad = list(pkt); bad[i] = (bad[i] & ~(15 << sh) & 255) | (v << sh)
+                    op = "p8301_time " + hx(bad)
+                    ops.append(op); self._expect[op] = "ok false"
+            # bits the decoder must ignore: byte 11 bits 0 and 7, byte 12 high nibble, all other bytes
+            ign = list(pkt); ign[11] ^= rng.choice([0x01, 0x80, 0x81]); ign[12] ^= rng.randrange(16) << 4
+            for i in list(range(0, 9)) + list(range(18, 42)):
+                if rng.random() < 0.3: ign[i] = rng.randrange(256)
+            op = "p8301_time " + hx(ign)
+            ops.append(op); self._expect[op] = e2
+        return chunks(ops, tier)
+
+    def gen_8302(self, rng, tier):
+        n = 600 if tier == "quick" else 6000
+        pre, meta = [], []
+        for i in range(n):
             fill = rbuf(rng, 42)
-            if rng.random() < 0.5:
-                f = (edge(rng, 16, False), rng.choice([0, 1, 9999, 40587, 58754, 99999, rng.randrange(100000)]),
-                     rng.choice([0, 23, rng.randrange(24)]), rng.choice([0, 59, rng.randrange(60)]),
-                     rng.choice([0, 59, 60, rng.randrange(61)]), rng.choice([0, 31, rng.randrange(32)]), rng.randrange(2))
-                pre.append("spec_enc8301 %s %d %d %d %d %d %d %d" % ((hx(fill),) + f))
-                meta.append(("8301", f))
+            if i < 16:      # each field alone at its maximum, all others zero; and all ones
+                f = [0] * 8
+                if i < 8: f[i] = [3, 1, 1, 3, 1, 0xFFFF, 0xFFFFF, 0xFF][i]
+                elif i == 8: f = [3, 1, 1, 3, 1, 0xFFFF, 0xFFFFF, 0xFF]
+                else: f = [rng.randrange(4), rng.randrange(2), rng.randrange(2), rng.randrange(4), rng.randrange(2),
+                           1 << rng.randrange(16), 1 << rng.randrange(20), 1 << rng.randrange(8)]
+                f = tuple(f)
             else:
                 f = (rng.randrange(4), rng.randrange(2), rng.randrange(2), rng.randrange(4), rng.randrange(2),
                      edge(rng, 16, False), edge(rng, 20, False), edge(rng, 8, False))
-                pre.append("spec_enc8302 %s %d %d %d %d %d %d %d %d" % ((hx(fill),) + f))
-                meta.append(("8302", f))
+            pre.append("spec_enc8302 %s %d %d %d %d %d %d %d %d" % ((hx(fill),) + f))
+            meta.append(f)
         outs = self.model(pre)
-        self._expect = {}
-        for (kind, f), o in zip(meta, outs):
+        ops = []
+        for idx, (f, o) in enumerate(zip(meta, outs)):
             if not o.startswith("ok "):
                 continue
-            pkt = bytes.fromhex(o.split()[1])
-            c = []
-            if kind == "8301":
-                c.append("p8301_cni " + hx(pkt)); c.append("p8301_time " + hx(pkt))
-                cni, mjd, hh, mm, ss, lto, neg = f
-                exp = ["ok %d" % cni, "ok %d %d" % ((mjd - 40587) * 86400 + hh * 3600 + mm * 60 + ss, (-1 if neg else 1) * lto * 1800)]
-                # invalid variants: a zero BCD digit or an out-of-range time must be refused
-                bad = bytearray(pkt); pos = rng.choice([13, 14, 15, 16, 17])
-                bad[pos] = bad[pos] & 0xF0 if rng.random() < 0.5 else (bad[pos] & 0x0F) | 0xC0
-                c.append("p8301_time " + hx(bad)); exp.append("ok false")
-            else:
-                c.append("p8302_cni " + hx(pkt)); c.append("p8302_pdc " + hx(pkt))
-                lci, luf, prf, pcs, mi, cni, pil, pty = f
-                exp = ["ok %d" % cni, "ok pid %d 3 %d %d %d %d %d %d %d" % (lci, cni, pil, luf, mi, prf, pcs, pty)]
-                # every single bit error in the protected bytes 9..21 must not change the result
-                pos = rng.randrange(9, 22); bit = rng.randrange(8)
-                one = bytearray(pkt); one[pos] ^= 1 << bit
-                c.append("p8302_pdc " + hx(one)); exp.append(exp[1])
-                two = bytearray(one); bit2 = (bit + 1 + rng.randrange(7)) % 8; two[pos] ^= 1 << bit2
-                c.append("p8302_pdc " + hx(two)); exp.append("ok false")
-            self._expect["\n".join(c)] = exp
-            cases.append(c)
-        # 5. malformed stream: random packets
-        c = []
-        for _ in range(N // 5):
+            pkt = unhx(o.split()[1])
+            lci, luf, prf, pcs, mi, cni, pil, pty = f
+            e1 = "ok %d" % cni
+            e2 = "ok " + pid_line(lci, 3, cni, pil, luf, mi, prf, pcs, pty)
+            for op, e in (("p8302_cni " + hx(pkt), e1), ("p8302_pdc " + hx(pkt), e2)):
+                ops.append(op); self._expect[op] = e
+            # single bit errors in the protected bytes 9..21 must not change anything
+            full = idx < (3 if tier == "quick" else 40)
+            flips = [(p, b) for p in range(9, 22) for b in range(8)]
+            for (p, b) in (flips if full else rng.sample(flips, 3)):
+                one = list(pkt); one[p] ^= 1 << b
+                for op, e in (("p8302_pdc " + hx(one), e2), ("p8302_cni " + hx(one), e1)):
+                    ops.append(op); self._expect[op] = e
+            # one error in every protected byte at once is still corrected
+            allone = list(pkt)
+            for p in range(9, 22): allone[p] ^= 1 << rng.randrange(8)
+            op = "p8302_pdc " + hx(allone); ops.append(op); self._expect[op] = e2
+            # two errors in one byte are refused
+            for _ in range(3):
+                p = rng.randrange(9, 22); b1, b2 = rng.sample(range(8), 2)
+                two = list(pkt); two[p] ^= (1 << b1) | (1 << b2)
+                op = "p8302_pdc " + hx(two); ops.append(op); self._expect[op] = "ok false"
+                if p not in (9, 14, 15, 20, 21):
+                    op = "p8302_cni " + hx(two); ops.append(op); self._expect[op] = "ok false"
+            # unprotected bytes are ignored
+            ign = list(pkt)
+            for i in list(range(0, 9)) + list(range(22, 42)):
+                if rng.random() < 0.3: ign[i] = rng.randrange(256)
+            op = "p8302_pdc " + hx(ign); ops.append(op); self._expect[op] = e2
+        return chunks(ops, tier)
+
+    def gen_random_packets(self, rng, tier):
+        n = 2000 if tier == "quick" else 20000
+        ops = []
+        for _ in range(n):
             p = rbuf(rng, 42)
-            c += ["p8301_time " + hx(p), "p8302_pdc " + hx(p), "p8302_cni " + hx(p)]
-        cases.append(c)
+            k = rng.random()
+            if k < 0.4:          # mostly decodable: random codewords / BCD+1 digits with a few faults
+                for i in range(9, 22): p[i] = HAM8[rng.randrange(16)]
+                if rng.random() < 0.5: p[rng.randrange(9, 22)] = rng.randrange(256)
+            elif k < 0.8:
+                p[12] = (p[12] & 0xF0) | rng.randrange(1, 11)
+                for i in range(13, 18): p[i] = rng.randrange(1, 11) << 4 | rng.randrange(1, 11)
+                if rng.random() < 0.5: p[15] = rng.choice([1, 2, 3]) << 4 | rng.randrange(1, 11)
+                if rng.random() < 0.3:
+                    i = rng.randrange(12, 18); p[i] = rng.randrange(256)
+            ops += ["p8301_cni " + hx(p), "p8301_time " + hx(p), "p8302_pdc " + hx(p), "p8302_cni " + hx(p)]
+        return chunks(ops, tier)
+
+    def gen_malformed(self, rng, tier):
+        """op lines both sides must reject the same way"""
+        c = ["vps_dec_cni 00", "vps_dec_cni", "vps_dec_pdc zz", "vps_enc_cni %s" % ("00" * 13), "vps_enc_cni %s x" % ("00" * 13),
+             "dvb_dec 6903", "dvb_enc 0000000000", "p8301_time " + "00" * 41, "p8302_pdc " + "00" * 43, "p8302_cni -",
+             "vps_rt_cni %s" % ("00" * 13), "vps_rt_pdc %s 1 2 3" % ("00" * 13), "dvb_rt 00 1", "vps_reenc %s" % ("00" * 13),
+             "vps_reenc %s 00" % ("00" * 13), "frobnicate 1 2", "ham8", "unham24p 0000", "unham16p 00", "rev8 x", "unpar 0"]
+        return [c]
+
+    def gen_cases(self, rng, tier):
+        self._expect = {}
+        cases = []
+        cases += self.gen_tables(rng, tier)
+        cases += self.gen_ham24(rng, tier)
+        cases += self.gen_vps(rng, tier)
+        cases += self.gen_8301(rng, tier)
+        cases += self.gen_8302(rng, tier)
+        cases += self.gen_random_packets(rng, tier)
+        cases += self.gen_malformed(rng, tier)
         return cases
 
     def classify(self, case):
-        return case[0].split()[0]
+        for l in case:
+            if not l.startswith("case"):
+                return l.split()[0]
+        return "empty"
 
+    # -- oracle -------------------------------------------------------------------------
     def oracle(self, case, out):
         """the property itself on the C code's outputs"""
         if len(out) != len(case):
             return "output count %d != ops %d" % (len(out), len(case))
-        for l in out:
-            if "false-but-modified" in l:
-                return "refusal modified the output"
-        exp = getattr(self, "_expect", {}).get("\n".join(case))
-        if exp is not None:
-            for i, (e, o) in enumerate(zip(exp, out)):
-                if e != o:
-                    return "8/30 decode of spec-encoded packet: op %d expected '%s' got '%s'" % (i, e, o)
-        if case and case[0].startswith("vps_enc_cni"):
-            b = bytes.fromhex(case[0].split()[1]); cni = int(case[0].split()[2])
-            pil, pcs, pty = [int(x) for x in case[1].split()[3:6]]
-            o = out[0].split()
-            if cni > 0xFFF:
-                if out[0] != "ok false": return "vps_enc_cni accepted out-of-range cni"
-            else:
-                if o[1] == "false": return "vps_enc_cni refused valid cni"
-                e = bytes.fromhex(o[1])
-                for i in range(13):
-                    mask = {8: 0xC0, 10: 0x03, 11: 0xFF}.get(i, 0)
-                    if (e[i] ^ b[i]) & ~mask & 0xFF: return "vps_enc_cni changed bits outside its fields (byte %d)" % i
-                dec = ((e[10] & 3) << 10) + ((e[11] & 0xC0) << 2) + (e[8] & 0xC0) + (e[11] & 0x3F)
-                if dec != cni: return "vps cni round trip"
-            o = out[1].split()
-            valid = cni <= 0xFFF and pil <= 0xFFFFF and pcs <= 3 and pty <= 0xFF
-            if not valid:
-                if out[1] != "ok false": return "vps_enc_pdc accepted out-of-range value"
-            else:
-                if o[1] == "false": return "vps_enc_pdc refused valid values"
-                e = bytes.fromhex(o[1])
-                for i in range(13):
-                    mask = {2: 0xC0, 8: 0xFF, 9: 0xFF, 10: 0xFF, 11: 0xFF, 12: 0xFF}.get(i, 0)
-                    if (e[i] ^ b[i]) & ~mask & 0xFF: return "vps_enc_pdc changed bits outside its fields (byte %d)" % i
-                dpil = ((e[8] & 0x3F) << 14) + (e[9] << 6) + (e[10] >> 2)
-                if dpil != pil or (e[2] >> 6) != pcs or e[12] != pty: return "vps pdc round trip"
-            # DVB descriptor
-            d = bytes.fromhex(case[4].split()[1]); dp = int(case[4].split()[2])
-            if dp > 0xFFFFF:
-                if out[4] != "ok false": return "dvb_enc accepted out-of-range pil"
-            else:
-                e = bytes.fromhex(out[4].split()[1])
-                if e[0] != 0x69 or e[1] != 3 or ((e[2] & 15) << 16) + (e[3] << 8) + e[4] != dp: return "dvb pdc round trip"
-            dd = bytes.fromhex(case[5].split()[1])
-            if (dd[0] != 0x69 or dd[1] != 3) and out[5] != "ok false": return "dvb_dec accepted wrong tag/length"
+        exp = getattr(self, "_expect", {})
+        for op, o in zip(case, out):
+            k = op.split()[0] if op.split() else ""
+            if "false-but-modified" in o:
+                return "%s: refusal modified the output" % k
+            e = exp.get(op)
+            if e is not None and e != o:
+                return "%s: sender-spec packet: expected '%s' got '%s'" % (k, e, o)
+            r = expected(op)
+            if r is not None and r != o and not o.startswith("rej"):
+                what = "refused valid input" if o == "ok false" else ("accepted invalid input" if r == "ok false" else "wrong value or touched bits")
+                return "%s: %s: reference '%s' got '%s'" % (k, what, r, o)
         return None
 
     def signature(self, case, what):
-        return what.split(":")[0]
+        return ":".join(what.split(":")[:2])
 
 if __name__ == "__main__":
     verif.run_check(C12())
